@@ -10,7 +10,7 @@ their path sets are equal after rewriting.
 """
 from .expr import LocalEnv, canon, show
 from .facts import kids, short, walk
-from .tables import enum_paths, value_literals, norm_literal, _separates
+from .tables import enum_paths, value_literals, norm_literal, norm_term, _separates
 
 
 def rewrite(t, fn):
@@ -145,7 +145,7 @@ class Summ:
         finally:
             env.assigned = saved
         t = self._alpha(t)
-        return rewrite(t, self.rw)
+        return rewrite(rewrite(t, norm_term), self.rw)
 
     def _alpha(self, t):
         return t
